@@ -700,7 +700,7 @@ func Run(ctx *core.Ctx) {
 	if err != nil {
 		ctx.Fatal("%v", err)
 	}
-	nds := ctx.Pick(150, 2000)
+	nds := ctx.Pick(200, 2000)
 	nw := 12
 	var wg sync.WaitGroup
 	next := make(chan int, nds)
